@@ -6,6 +6,7 @@ import (
 	"fmt"
 	"strings"
 	"testing"
+	"time"
 
 	"github.com/gofiber/fiber/v3"
 	"github.com/gofiber/fiber/v3/middleware/encryptcookie"
@@ -26,6 +27,24 @@ func TestReplay(t *testing.T)       { vk.TestReplay(t) }
 type Cookie struct {
 	Name  string
 	Value []byte
+	Attr  string `json:",omitempty"` // "" | past (Expires in the past: "drop it", value still set) | future | maxage | session | secure
+}
+
+func (ck Cookie) fiber() *fiber.Cookie {
+	c := &fiber.Cookie{Name: ck.Name, Value: string(ck.Value)}
+	switch ck.Attr {
+	case "past":
+		c.Expires = time.Date(2001, 2, 3, 4, 5, 6, 0, time.UTC)
+	case "future":
+		c.Expires = time.Date(2099, 2, 3, 4, 5, 6, 0, time.UTC)
+	case "maxage":
+		c.MaxAge = 3600
+	case "session":
+		c.SessionOnly = true
+	case "secure":
+		c.Secure, c.HTTPOnly, c.SameSite, c.Path, c.Domain = true, true, "Strict", "/app", "example.com"
+	}
+	return c
 }
 
 type Case struct {
@@ -61,7 +80,7 @@ func check(c Case) vk.Verdict {
 	app.Use(encryptcookie.New(encryptcookie.Config{Key: key, Except: c.Except}))
 	app.Get("/set", func(ctx fiber.Ctx) error {
 		for _, ck := range c.Cookies {
-			ctx.Cookie(&fiber.Cookie{Name: ck.Name, Value: string(ck.Value)})
+			ctx.Cookie(ck.fiber())
 		}
 		if c.SetErr != 0 {
 			return fiber.NewError(c.SetErr, "denied")
@@ -265,7 +284,7 @@ func genCase(t *rapid.T) Case {
 	c := Case{Key: rapid.SliceOfN(rapid.Byte(), kl, kl).Draw(t, "key"), OtherKey: rapid.SliceOfN(rapid.Byte(), kl, kl).Draw(t, "okey")}
 	ns := rapid.SliceOfNDistinct(rapid.SampledFrom(names), 1, 4, rapid.ID[string]).Draw(t, "names")
 	for _, n := range ns {
-		c.Cookies = append(c.Cookies, Cookie{Name: n, Value: genValue(t)})
+		c.Cookies = append(c.Cookies, Cookie{Name: n, Value: genValue(t), Attr: rapid.SampledFrom([]string{"", "", "", "past", "future", "maxage", "session", "secure"}).Draw(t, "attr")})
 	}
 	c.Except = rapid.SliceOfNDistinct(rapid.SampledFrom(names), 0, 2, rapid.ID[string]).Draw(t, "except")
 	c.SetErr = rapid.SampledFrom([]int{0, 0, 0, 403, 500}).Draw(t, "seterr")
